@@ -479,7 +479,7 @@ def gen_exact(rng, drv, lib, it):
 def run_lib(lib, c, with_event, direction=None, xtol=None, gtol=None, cfg_default=False):
     integ = lib.integrator(c["spec"])
     if not with_event:
-        tv = c["tv"] if c["spec"]["kind"] != "adaptive" else np.linspace(c["t0"], c["T"], 33)
+        tv = c["tv"] if c["spec"]["kind"] != "adaptive" else np.linspace(c["t0"], c["T"], 257)
         return integ.integrate(c["system"], c["y0"].copy(), tv)
     if cfg_default:
         return integ.integrate(c["system"], c["y0"].copy(), c["tv"].copy(), event_fn=c["event"])
@@ -570,11 +570,12 @@ def judge(ctx, lib, c, it):
                 sl_k = abs(sc.g[k + 1] - sc.g[k]) / sc.dt
                 tr = sc.root_time(k)
                 j = int(np.clip(np.searchsorted(nodes, tr), 1, len(nodes) - 1))
-                dist = min(abs(tr - nodes[j - 1]), abs(tr - nodes[j]))
-                if dist <= 10 * (gdd * sc.dt ** 2 / sl_k + err_g / sl_k) + 1e-9:
+                near = [nodes[i] for i in (j - 1, j) if i >= 1]          # node 0 is the start: g(t0) is known exactly
+                dist = min(abs(tr - tn) for tn in near)
+                if dist <= 10 * gdd * sc.dt ** 2 / sl_k + 1e-6 * h + 1e-9:
                     tr = sc.refine(k)
-                    dist = min(abs(tr - nodes[j - 1]), abs(tr - nodes[j]))
-                    if dist <= 10 * err_g / sl_k + 1e-12:
+                    dist = min(abs(tr - tn) for tn in near)
+                    if dist <= 1e-6 * h + 1e-9:      # g == 0.0 exactly needs a coincidence to rounding level
                         ctx.skip("rejected: filtered-direction zero on a step node (outcome not fixed by the statement)")
                         return
         n_filtered = 0
@@ -616,9 +617,16 @@ def judge(ctx, lib, c, it):
 
     x_tol = 10 * E + 10 * A + 1e-13 * scale
 
+    def near_miss(name, ratio, extra):
+        if 0.2 < ratio <= 1.0:
+            ctx.count("near-miss (> 0.2 of a tolerance)")
+            if f"near_miss[{name}:{drv}]" not in ctx.notes:
+                ctx.note(f"near_miss[{name}:{drv}]", {**wit(), **extra, "ratio": ratio})
+
     def check_on_traj(tag):
         ex = float(np.linalg.norm(y_end[:6] - flow(np.array([t_end]))[0]))
         ctx.stat(f"state_err/tol[{drv}]", ex / x_tol)
+        near_miss("state", ex / x_tol, {"state_err": ex, "tol": x_tol})
         ctx.check(ex <= x_tol, f"{tag}: reported state on the exact trajectory at the reported time",
                   lambda: {**wit(), "state_err": ex, "tol": x_tol})
 
@@ -658,6 +666,7 @@ def judge(ctx, lib, c, it):
     t_tol = 10 * err_g / aslope + 10 * xtol + 1e-14 * (1 + abs(t_star))
     dt_err = abs(t_end - t_star)
     ctx.stat(f"t_err/tol[{drv}]", dt_err / t_tol)
+    near_miss("time", dt_err / t_tol, {"t_err": dt_err, "tol": t_tol})
     ctx.check(dt_err <= t_tol, "t_hit equals the first admissible crossing time",
               lambda: {**wit(), "t_err": dt_err, "tol": t_tol, "slope": slope, "n_filtered_before": n_filtered})
     check_on_traj("hit")
@@ -740,8 +749,8 @@ def wrapper_cases(ctx, n):
             continue
         inwin = [(t, s) for t, s in zip(te, sl) if t_start < t < tmax and (direction is None or np.sign(s) == direction)]
         # E_int of the same scheme without event
-        sol0 = _propagate_dynsys(dyn, y0, 0.0, tmax, forward=forward, steps=2, method="adaptive", order=8)
-        E = float(np.linalg.norm(np.asarray(sol0.states[-1]) - dense(tmax))) + 1e-12
+        sol0 = _propagate_dynsys(dyn, y0, 0.0, tmax, forward=forward, steps=65, method="adaptive", order=8)
+        E = float(np.max(np.linalg.norm(np.asarray(sol0.states) - dense(np.abs(np.asarray(sol0.times))).T, axis=1))) + 1e-12
         ctx.stat("E_int[wrapper]", E)
         hit = _SingleHitBackend()._cross_event_driven(y0.copy(), dynsys=dyn, surface=_PlaneEvent(coord=coord, value=off, direction=direction),
                                                       t0=t0w, tmax=tmax, forward=forward)
